@@ -2,11 +2,11 @@ package main
 
 import (
 	"bufio"
-	"os"
 	"encoding/json"
 	"fmt"
 	"net"
 	"net/http"
+	"os"
 	"strconv"
 	"strings"
 	"sync"
@@ -257,12 +257,12 @@ func bindCore(rep *Report, prop string) {
 	hs, ta := tsgu.Handshake(1, 0, 0, tsgu.ExtAuthPAA), tsgu.TunnelAuth("pc")
 	tc := tsgu.TunnelCreate(tok, true)
 	type probe struct {
-		name     string
-		from     string
-		hdr      []string
-		pkts     [][]byte
-		want     []uint32 // expected statuses (0xFFFFFFFF not answered, 1 = any non-zero)
-		dialTo   string   // backend that must be reached ("" = none may be)
+		name   string
+		from   string
+		hdr    []string
+		pkts   [][]byte
+		want   []uint32 // expected statuses (0xFFFFFFFF not answered, 1 = any non-zero)
+		dialTo string   // backend that must be reached ("" = none may be)
 	}
 	okSeq := [][]byte{hs, tc, ta, tsgu.ChannelCreate(tip, bp)}
 	forged := jwsCompact(`{"alg":"HS256","typ":"JWT"}`, mustJSON(cl), "HS256", []byte("ffffffffffffffffffffffffffffffff"))
